@@ -36,7 +36,7 @@ class Mode:
 
     def __init__(self, name, tocks=True, rets=True, raises=False, kbd=False, enterfail=False,
                  enterdone=False, ext=(), rem=(), kinds=(0, 1, 2, 3, 4), cfg=True, horizon=3,
-                 limits=(None, 2.0, 2.5, 0.3), always=False, stale_done=False, xtocks=False, callcfg=False, tockset=(), handdrive=False, rerun=False):
+                 limits=(None, 2.0, 2.5, 0.3), always=False, stale_done=False, xtocks=False, callcfg=False, tockset=(), handdrive=False, rerun=False, prerun=False):
         self.name = name
         self.tocks, self.rets, self.raises, self.kbd = tocks, rets, raises, kbd
         self.enterfail, self.enterdone = enterfail, enterdone
@@ -47,21 +47,22 @@ class Mode:
         self.xtocks = xtocks
         self.callcfg = callcfg     # limit and start tyme may be given to do()/ado() instead of the constructor
         self.tockset = tuple(tockset)   # with tocks=False: the only yielded tocks offered (multiples of T), e.g. "not due at the stop"
+        self.prerun = prerun            # the same doer objects may have been run to completion before, by another Doist on another tyme base
         self.rerun = rerun              # the same scheduler may be run a second time, without arguments, right after the first run
         self.handdrive = handdrive      # the run may be driven by hand: enter(doers=) / recur(deeds=) / exit(deeds=) on an explicit deque
 
 
 MODES = {
-    "C01": Mode("C01", raises=True, kbd=True, enterfail=True, enterdone=True, handdrive=True,
+    "C01": Mode("C01", prerun=True, raises=True, kbd=True, enterfail=True, enterdone=True, handdrive=True,
                 ext=("fresh", "failing", "uncle"), rem=("self", "prev", "next", "far", "uncle"), always=True),
-    "C02": Mode("C02", tocks=False, rets=True, raises=True, enterfail=True, tockset=(2.0,), handdrive=True,
-                ext=("fresh", "failing", "two", "uncle"), rem=("prev", "next", "parent", "far", "alias", "uncle"), always=True,
+    "C02": Mode("C02", prerun=True, tocks=False, rets=True, raises=True, enterfail=True, tockset=(2.0,), handdrive=True,
+                ext=("fresh", "failing", "two", "uncle"), rem=("prev", "next", "parent", "far", "alias", "dupnext", "uncle"), always=True,
                 limits=(None, 2.0, 1.0)),
-    "C03": Mode("C03", horizon=4, limits=(None, 2.5), xtocks=True),
-    "C04": Mode("C04", raises=True, horizon=3, limits=(None, 2.0, 2.5)),
-    "C05": Mode("C05", raises=True, enterdone=True, always=True, stale_done=True, limits=(None, 2.0, 2.5, 0.3, 1.0, 3.0),
-                ext=("uncle",), callcfg=True),
-    "C06": Mode("C06", tocks=True, rets=True, enterdone=True, ext=("fresh", "present", "dup", "done"),
+    "C03": Mode("C03", prerun=True, horizon=4, limits=(None, 2.5), xtocks=True),
+    "C04": Mode("C04", prerun=True, raises=True, horizon=3, limits=(None, 2.0, 2.5)),
+    "C05": Mode("C05", prerun=True, raises=True, enterdone=True, always=True, stale_done=True, limits=(None, 2.0, 2.5, 0.3, 1.0, 3.0),
+                ext=("uncle", "fresh"), callcfg=True),
+    "C06": Mode("C06", prerun=True, tocks=True, rets=True, enterdone=True, ext=("fresh", "present", "dup", "done", "redo", "uncle"),
                 rem=("self", "prev", "next", "far", "alias", "dupnext", "done", "absent"), always=True, kinds=(0, 2, 4),
                 limits=(None, 3.0, 2.0)),
     "C30": Mode("C30", raises=True, enterdone=True, limits=(None, 2.0, 2.5)),
@@ -90,9 +91,12 @@ class World:
         self.T = T_DEFAULT
         self.calls = []           # extend/remove call records for C06
         self.enter_done = {}      # name -> value of doer.done observed inside enter
+        self.muted = False        # True while the doers are taken through an earlier, unobserved run
 
     # logging ------------------------------------------------------------
     def log(self, name, ev, *extra):
+        if self.muted:
+            return
         d = self.doist
         self.trace.append((name, ev, d.tyme if d is not None else None, self.cycle) + extra)
 
@@ -213,6 +217,13 @@ class World:
         elif what == "dup":
             x = self.new_leaf(pn)
             arg = [x, x]
+        elif what == "redo":          # take a sibling that already completed out of the scheduler and add it again (a second life)
+            donesibs = [n for n in sibs if n != leaf.name and self.exited(n)]
+            if donesibs:
+                self.do_rem(leaf, "done")
+                arg = [self.nodes[donesibs[0]].doer]
+            else:
+                arg = [self.new_leaf(pn)]
         elif what == "done":          # re-add a sibling that already completed (if any), else a fresh one
             donesibs = [n for n in sibs if n != leaf.name and self.exited(n)]
             arg = [self.nodes[donesibs[0]].doer] if donesibs else [self.new_leaf(pn)]
@@ -316,6 +327,8 @@ class LeafBase:
     def script_enter(self):
         """returns True when the leaf is to complete inside enter"""
         w = self.w
+        if w.muted:
+            return False
         w.log(self.name, "enter")
         w.enter_done[self.name] = self.doer.done
         if self.failing:
@@ -329,6 +342,8 @@ class LeafBase:
     def script_step(self, tyme):
         """returns ('y', tock) or ('ret', value); may raise"""
         w = self.w
+        if w.muted:
+            return ("ret", True)
         k = self.k
         self.k += 1
         w.log(self.name, "recur", tyme)
@@ -566,7 +581,7 @@ def build(w, shape, kinds=None, parent=""):
 
 
 SWEEP_TOCKS = [1.0, 0.25, 0.1, 0.03125, 0.3]
-SWEEP_STARTS = [0.0, 2.5, 0.2, 0.7, -1.0]      # negative: a due tyme can land exactly on 0.0
+SWEEP_STARTS = [0.0, 2.5, 0.2, 0.7, -1.0, -0.5, -1.5]      # negative: a due tyme can land exactly on 0.0, on a cycle or between two
 SWEEP_LIMITS = [None, 2.0, 2.5, 0.3, 0.5, 1.0, 3.0, 0.7]   # absolute seconds when "abs" below
 
 
@@ -580,16 +595,18 @@ def config(w, ch, shape, sweep=False):
         lims = [x for x in SWEEP_LIMITS if x is not None] if shape_has_always(shape) else SWEEP_LIMITS
         lim = ch.pick(lims, "cfg:limit", cost=0)
         mult = ch.pick([True, False], "cfg:limit-in-tocks", cost=0)
-        via = ch.pick(["ctor", "call"] + (["call+rerun"] if m.rerun else []), "cfg:via", cost=0) if m.callcfg else "ctor"
+        via = ch.pick(["ctor", "call"] + (["call+rerun"] if m.rerun else []) + (["prerun"] if m.prerun else []), "cfg:via", cost=0) if (m.callcfg or m.prerun) else "ctor"
         return T, start, (lim * T if (lim is not None and mult) else lim), via
     if m.cfg and w.table is None:
         T = ch.pick([1.0, 0.25, 0.1], "cfg:tock")
-        start = ch.pick([0.0, 2.5], "cfg:start")
+        start = ch.pick([0.0, 2.5, -1.5], "cfg:start")     # negative: due tymes pass through exactly 0.0
         lims = list(m.limits)
         if shape_has_always(shape):
             lims = [x for x in lims if x is not None] or [2.0]
         lim = ch.pick(lims, "cfg:limit")
-        via = ch.pick(["ctor", "call"] + (["call+rerun"] if m.rerun else []), "cfg:via") if m.callcfg else (ch.pick(["ctor", "hand"], "cfg:via") if m.handdrive else "ctor")
+        pre = ["prerun"] if m.prerun else []
+        via = ch.pick(["ctor", "call"] + (["call+rerun"] if m.rerun else []) + pre, "cfg:via") if m.callcfg else (
+            ch.pick(["ctor", "hand"] + pre, "cfg:via") if m.handdrive else (ch.pick(["ctor"] + pre, "cfg:via") if pre else "ctor"))
     else:
         T, start, lim = 1.0, 0.0, (2.0 if shape_has_always(shape) else None)
         via = "ctor"
@@ -625,12 +642,17 @@ def run(job, ch, mode=None, table=None, cfg=None, kinds=None, runner=None):
             node = w.nodes.get(n)
             if node is not None and w.kind.get(n) != "D":
                 node.basetock = ch.pick([0.0, 0.5 * T, 0.1, 2 * T] + ([1.5 * T] if w.mode.xtocks else []), "basetock:" + n)
+    if via == "prerun":
+        prerun(w, doers, start)
+    # the sign of a limit carries no meaning (documented as a magnitude by abs() at every entry point)
+    sgn = -1.0 if (w.mode.callcfg and lim is not None and w.table is None and ch is not None and ch.pick([False, True], "cfg:neglimit")) else 1.0
     if via in ("call", "call+rerun"):     # constructor holds other (stale) values; the run's limit and start tyme are given to do()/ado()
-        d = LoggedDoist(w, tock=T, real=False, limit=(None if lim is None else lim + 3 * T), doers=doers, tyme=start + 3 * T + 0.5)
-        w.call_kwargs = dict(limit=lim, tyme=start)
+        # "no limit" for this run is said with limit=0 (None would keep the constructor's)
+        d = LoggedDoist(w, tock=T, real=False, limit=(3 * T if lim is None else lim + 3 * T), doers=doers, tyme=start + 3 * T + 0.5)
+        w.call_kwargs = dict(limit=(0.0 if lim is None else sgn * lim), tyme=start)
         w.second_run = (via == "call+rerun")   # then once more without arguments: what the first call stored is what counts
     else:
-        d = LoggedDoist(w, tock=T, real=False, limit=lim, doers=doers, tyme=start)
+        d = LoggedDoist(w, tock=T, real=False, limit=(lim if lim is None else sgn * lim), doers=doers, tyme=start)
         w.call_kwargs = {}
         w.second_run = False
     w.doist = d
@@ -665,6 +687,20 @@ def run(job, ch, mode=None, table=None, cfg=None, kinds=None, runner=None):
     w.dones = {n: (node.doer.done if node is not None else None) for n, node in w.nodes.items()}
     w.doers_after = [name_of(x) for x in d.doers]
     return w
+
+
+def prerun(w, doers, start):
+    """the same doer objects are first run to completion by another Doist on another tyme base (unobserved: every leaf
+    completes at its first recur; an always-DoDoer is closed by that run's limit); what the observed run sees must not
+    depend on it"""
+    w.muted = True
+    try:
+        doing.Doist(tock=0.5, real=False, limit=1.0, doers=list(doers), tyme=start + 64.0).do()
+    finally:
+        w.muted = False
+    for node in w.nodes.values():
+        if hasattr(node, "k"):
+            node.k = 0
 
 
 def hand_drive(w, d, doers, lim):
